@@ -98,6 +98,12 @@ type QWorld struct {
 	TraceOn                                                                               bool
 	traceHash                                                                             uint64
 	Markers                                                                               bool
+	Faulty       bool // a fault plan is installed on the disk: injected I/O errors are expected
+	UnsafeReopen bool // an I/O error happened and no commit succeeded since: do not reopen (C08's subject)
+	IOErrs       int
+	injectedSeen int
+	lastProgress int
+	AbortCase    bool // the case ended early for a reason that is no verdict
 	lastACKStartPage                                                                      int
 }
 
@@ -168,6 +174,21 @@ func kinds(err error) string {
 		return true
 	})
 	return s
+}
+
+// tolerated reports whether a writer/close error is one the model expects:
+// no space on a bounded file, or an injected I/O error (fault cases).
+func (q *QWorld) tolerated(err error) bool {
+	if q.Cfg.File.MaxPages > 0 && isSpaceErr(err) {
+		return true
+	}
+	if q.Faulty && (txerr.Is(txfile.IOError, err) || q.Disk.Injected() > q.injectedSeen) {
+		q.injectedSeen = q.Disk.Injected()
+		q.IOErrs++
+		q.UnsafeReopen = true
+		return true
+	}
+	return false
 }
 
 func isSpaceErr(err error) bool {
@@ -262,7 +283,7 @@ func (q *QWorld) WriteChunk(size, chunk int) bool {
 	}
 	q.mark("w-end", q.cbFlushed)
 	if err != nil {
-		if q.Cfg.File.MaxPages > 0 && isSpaceErr(err) {
+		if q.tolerated(err) {
 			if n != 0 {
 				return q.violate("write-partial", "write-partial", "Write returned n=%d together with an error", n)
 			}
@@ -301,7 +322,7 @@ func (q *QWorld) Next() bool {
 	q.Completed++
 	q.cur, q.curOff = nil, 0
 	if err != nil {
-		if q.Cfg.File.MaxPages > 0 && isSpaceErr(err) {
+		if q.tolerated(err) {
 			q.NextErrs++
 			q.tracef("next ev=%d -> full (%s)", q.Completed-1, kinds(err))
 			return q.afterWriterCall(before, false)
@@ -322,7 +343,7 @@ func (q *QWorld) Flush() bool {
 	}
 	q.mark("w-end", q.cbFlushed)
 	if err != nil {
-		if q.Cfg.File.MaxPages > 0 && isSpaceErr(err) {
+		if q.tolerated(err) {
 			q.FlushErrs++
 			q.tracef("flush -> full (%s)", kinds(err))
 			return q.afterWriterCall(before, false)
@@ -500,6 +521,14 @@ func (q *QWorld) ACK(n int) bool {
 	if q.guard("Queue.ACK", func() { err = q.Q.ACK(uint(n)) }) {
 		return false
 	}
+	if err != nil && q.tolerated(err) {
+		q.mark("ack-fail", q.Acked)
+		q.tracef("ack(%d) -> io error (%s)", n, kinds(err))
+		if q.Mon.Counters && q.cbAcked != q.Acked {
+			return q.violate("cb-acked", "cb-acked-on-failure", "ACK(%d) failed but the ACKed callback total moved to %d (ACKed events %d)", n, q.cbAcked, q.Acked)
+		}
+		return q.checkCounters("failed ack")
+	}
 	if err != nil {
 		q.mark("ack-fail", q.Acked)
 		return q.violate("ack-error", "ack-error:"+kinds(err), "ACK(%d) failed (acked=%d, flushed>=%d): %+v", n, q.Acked, q.FlushedLo, err)
@@ -594,8 +623,18 @@ func (q *QWorld) CloseQueue() bool {
 	}
 	q.mark("w-end", q.cbFlushed)
 	if err != nil {
-		if !(q.Cfg.File.MaxPages > 0 && isSpaceErr(err)) {
+		if !q.tolerated(err) {
 			return q.violate("qclose-error", "qclose-error:"+kinds(err), "Queue.Close failed: %v", err)
+		}
+		if !isSpaceErr(err) {
+			// injected I/O error inside the closing flush: whether that flush
+			// became durable is C08's subject (failed final sync); the case ends here.
+			q.tracef("qclose -> io error: case ends")
+			q.AbortCase = true
+			f := q.F
+			q.guard("File.Close", func() { f.Close() })
+			q.F = nil
+			return false
 		}
 		q.tracef("qclose -> full: unflushed events are dropped")
 	} else {
